@@ -355,6 +355,58 @@ def main():
                                      dict(rp, dense=dn, err=worst,
                                           bound=bound), rp)
 
+    # ------------- a long grid on which the dynamics approaches its limit
+    # fast dephasing, slow population transfer: late on the grid every
+    # element changes by less than 1e-5 of its size per step, and still the
+    # stored superoperator composes on the grid and reproduces propagation
+    for li in range(2 if ck.thorough else 1):
+        NtL, dtL, NdL = 1500, 1.0, 10
+        hh = numpy.diag([0.0, 1.0, 1.3 + 0.1 * li])
+        hamL = qr.Hamiltonian(data=hh)
+        opsL, ratesL = [], []
+        for nq in range(3):
+            kk = numpy.zeros((3, 3))
+            kk[nq, nq] = 1.0
+            opsL.append(qr.qm.Operator(data=kk))
+            ratesL.append(2.0)
+        for (nq, mq, rq) in ((1, 2, 0.006), (2, 1, 0.002 + 0.001 * li)):
+            kk = numpy.zeros((3, 3))
+            kk[nq, mq] = 1.0
+            opsL.append(qr.qm.Operator(data=kk))
+            ratesL.append(rq)
+        sbiL = qr.qm.SystemBathInteraction(opsL, rates=ratesL)
+        rtL = LindbladForm(hamL, sbiL, as_operators=False)
+        timeL = qr.TimeAxis(0.0, NtL, dtL)
+        rp = dict(kind="long-grid", Nt=NtL, dt=dtL, dense=NdL, variant=li)
+        with ck.guarded("numeric", "long-grid", rp, rp):
+            eL = qr.qm.EvolutionSuperOperator(timeL, ham=hamL, relt=rtL)
+            eL.set_dense_dt(NdL)
+            quiet(eL.calculate)
+            UL = numpy.array(eL.data)
+            worst = 0.0
+            for (i, j) in ((NtL // 2 - 1, NtL // 2), (NtL - 2, 1),
+                           (NtL // 3, NtL // 3), (1000, 400), (700, 700)):
+                worst = max(worst, float(numpy.abs(
+                    UL[i + j] - numpy.tensordot(UL[i], UL[j])).max()))
+            ck.case("semigroup", ("long", li), sample=dict(rp, err=worst))
+            if worst > 1e-9:
+                ck.violation("semigroup", "long-grid", dict(rp, err=worst),
+                             rp)
+            v = numpy.array([0.2, 0.7, 0.3 + 0.6j])
+            v = v / numpy.linalg.norm(v)
+            rho0 = numpy.outer(v, v.conj())
+            pL = ReducedDensityMatrixPropagator(timeL, hamL, RTensor=rtL)
+            pL.setDtRefinement(NdL)
+            dd = numpy.array(quiet(pL.propagate, qr.ReducedDensityMatrix(
+                data=rho0.copy())).data)
+            aa = numpy.einsum('tabcd,cd->tab', UL, rho0)
+            e = float(numpy.abs(aa - dd).max())
+            ck.case("apply-equals-propagation", ("long", li),
+                    sample=dict(rp, err=e))
+            if e > 1e-9:
+                ck.violation("apply-equals-propagation", "long-grid",
+                             dict(rp, err=e), rp)
+
     ck.assume("time-independent generators only (the property's scope); "
               "TLC bound Nt = 4, dense <= 2, <= 6 calls")
     ck.assume("mixing save=True and save=False in one incremental "
